@@ -58,6 +58,7 @@ class Ctx:
         self._largest = (0, None)
         self.known_seen: Dict[str, Dict[str, Any]] = {}
         self.exhaustive: collections.Counter = collections.Counter()
+        self.recent: collections.deque = collections.deque(maxlen=400)  # last cases run in this process (history-dependent failures)
         # current case
         self._case = None
         self._nt = False
@@ -65,6 +66,8 @@ class Ctx:
 
     # ---- per-case API -------------------------------------------------------------------
     def begin(self, case: Any) -> None:
+        if not self.recent or self.recent[-1] is not case:
+            self.recent.append(case)
         self._case = case
         self._nt = False
         self._labels = []
